@@ -10,8 +10,8 @@ CONSTANTS
   InitStamps = {0, 1}
   NoDefault = {"p1"}
   InitScopeSets = {{}, {"all"}}
-  HiddenChoices = {{}, {"p2"}}
-  ActScopes = {"all", "mod", "p1"}
+  HiddenChoices = {{"p2"}}
+  ActScopes = {"all", "mod"}
   RepKinds = {}
   MaxNow = 8
   Depth = 3
